@@ -40,7 +40,7 @@ func newEngine(repo, specDir, contractsDir string) (*Engine, error) {
 	}
 	E := &Engine{P: P, U: U, CS: CS, Spec: Spec, needCat: map[string]bool{}, globalMapsRead: map[string]bool{},
 		allocCache: map[*ssa.Function]map[string]bool{}, callees: map[*ssa.Function][]*ssa.Function{}, reachCache: map[*ssa.Function]map[*ssa.Function]bool{},
-		TimeoutQ: 6000, TimeoutR: 20000}
+		TimeoutQ: 6000, TimeoutR: 30000}
 	E.registerGenerated()
 	wd, err := os.MkdirTemp("", "govc")
 	if err != nil {
